@@ -10,12 +10,12 @@ from vf.models import scores as SM
 from vf.scorers import SCORER_NAMES, desc_from_spec, make_scorer
 from vf.spec import build, short
 
-SHARDS = {"quick": 6, "thorough": 16}
+SHARDS = {"quick": 12, "thorough": 16}
 WATCHDOG = {"quick": 1200, "thorough": 7200}
 FLOORS = {
-    "quick": {"distinct_nontrivial": 2000, "K4_evaluations": 5000, "tuples_invalid": 5000,
-              "tuples_valid": 500},
-    "thorough": {"distinct_nontrivial": 20000, "K4_evaluations": 50000},
+    "quick": {"distinct_nontrivial": 300000, "K4_evaluations": 15000, "tuples_invalid": 300000,
+              "tuples_valid": 10000},
+    "thorough": {"distinct_nontrivial": 500000, "K4_evaluations": 50000, "tuples_valid": 40000},
 }
 ANCHORS = [
     "skchange.base.base_interval_scorer.BaseIntervalScorer.evaluate",
@@ -25,10 +25,10 @@ ANCHORS = [
 ]
 LEVEL = "exploration"
 EXHAUSTIVE_SUBSPACES = {
-    "quick": ["all integer tuples of the box [-2,n+2]^k, n in {3,4,5}, for each of the 19 "
-              "built-in scorer kinds (k = 2, 3 or 4), each tuple alone as int64"],
-    "thorough": ["all integer tuples of the box [-2,n+2]^k, n in {3,...,7}, for each of the 19 "
-                 "built-in scorer kinds, each tuple alone as int64, p in {1,2,3}"],
+    "quick": ["all integer tuples of the box [-2,n+2]^k, n in {3,...,7} (k = 4: n <= 6), for each of the "
+              "19 built-in scorer kinds (k = 2, 3 or 4), each tuple alone as int64, p in {1,2,3}"],
+    "thorough": ["all integer tuples of the box [-2,n+2]^k, n in {3,...,10} (k = 4: n <= 8), for each "
+                 "of the 19 built-in scorer kinds, each tuple alone as int64, p in {1,2,3,4}"],
 }
 RULE = (
     "exhaustive box [-2,n+2]^k of integer tuples per scorer kind and small n (each tuple alone), "
@@ -198,14 +198,14 @@ def exec_case(ctx, r):
 
 
 def plan(tier):
-    ns = [3, 4, 5] if tier == "quick" else [3, 4, 5, 6, 7]
-    ps = [1, 2] if tier == "quick" else [1, 2, 3]
+    ns = [3, 4, 5, 6, 7] if tier == "quick" else [3, 4, 5, 6, 7, 8, 9, 10]
+    ps = [1, 2, 3] if tier == "quick" else [1, 2, 3, 4]
     out = []
     for name in SCORER_NAMES:
         for n in ns:
             for p in ps:
-                if "LocalAnomalyScore" in name and n > 6:
-                    continue  # 12^4 tuples with a refit per cut: bounded for time
+                if "LocalAnomalyScore" in name and n > (6 if tier == "quick" else 8):
+                    continue  # (n+5)^4 tuples with a refit per valid cut: bounded for time
                 out.append((name, n, p))
     return out
 
